@@ -97,6 +97,7 @@ struct Obj {
   virtual bool by_value() = 0;                  // generic assignment copies the struct itself (line)
   virtual const void *data() = 0;               // the plain struct
   virtual mpt::convertable *as_source() = 0;    // C++ flavour: the object itself is a convertable
+  virtual Obj *clone() = 0;                     // C++ flavour: metatype clone()
   virtual void destroy() = 0;
 };
 
@@ -169,6 +170,7 @@ struct CObjT : Obj {
   bool by_value() override { return COps<T>::ByValue; }
   const void *data() override { return st; }
   mpt::convertable *as_source() override { return 0; }
+  Obj *clone() override { return 0; }
   void destroy() override {
     COps<T>::fini(st);
     free(st);
@@ -181,6 +183,8 @@ template <typename W, typename T>
 struct XObjT : Obj {
   W *w;
   XObjT() : w(new W()) {}
+  explicit XObjT(W *from) : w(from) {}
+  Obj *clone() override { W *n = w->clone(); return n ? new XObjT(n) : 0; }
   int get(mpt::property *pr) override { return static_cast<mpt::object *>(w)->property(pr); }
   int set(const char *name, mpt::convertable *src) override { return static_cast<mpt::object *>(w)->set_property(name, src); }
   mpt::object *object() override { return static_cast<mpt::object *>(w); }
@@ -249,7 +253,7 @@ struct StringConv : CConv {  // the convertable of examples/axis.c: mpt_convert_
 
 // ------------------------------------------------------------------------------------------------
 // values
-enum Mode { MTyped, MSetString, MConvString, MNoValue };
+enum Mode { MTyped, MValue, MSetString, MConvString, MNoValue };  // MValue: typed value through mpt_object_set_value (library converts)
 enum Sem { SNone, SInt, SReal, SChar, SString, SColor, SPoint, SLetters, SLog };
 struct Value {
   Mode mode = MTyped;
@@ -290,6 +294,7 @@ std::string Value::describe() const {
     case MNoValue: return "no value (NULL text)";
     default: break;
   }
+  if (mode == MValue) { Value t = *this; t.mode = MTyped; return "mpt_object_set_value: " + t.describe(); }
   if (type == 's') return null_string ? std::string("typed 's' NULL") : "typed 's' " + printable(text);
   if (type == kVecChar) return std::string("typed vector 'c' ") + (vec_with_nul ? "(+NUL) " : "") + printable(text);
   if (type > 0 && type < 128) snprintf(b, sizeof b, "typed '%c' %s", type, hex(bytes.data(), bytes.size()).c_str());
@@ -454,11 +459,13 @@ static std::string text_as_float(long type, const std::string &t, bool &ok) {
   return ren_d(d);
 }
 
-static bool is_text(const Value &v) { return v.mode == MSetString || v.mode == MConvString || (v.mode == MTyped && v.type == 's' && !v.null_string); }
-static bool is_numeric_typed(const Value &v) { return v.mode == MTyped && (v.sem == SInt || v.sem == SReal || v.sem == SChar) ; }
+static bool typed(const Value &v) { return v.mode == MTyped || v.mode == MValue; }
+static bool is_text(const Value &v) { return v.mode == MSetString || v.mode == MConvString || (typed(v) && v.type == 's' && !v.null_string); }
+static bool is_numeric_typed(const Value &v) { return typed(v) && (v.sem == SInt || v.sem == SReal || v.sem == SChar) ; }
 
 static Expect expect_numeric(long ltype, const Value &v) {
   Expect e;
+  if (typed(v) && v.type == 'c' && v.num >= 128 && ltype != 'c') return e;  // plain char: sign is the platform's choice
   if (is_numeric_typed(v)) {
     e.known = true;
     e.val = num_as(ltype, v);
@@ -484,7 +491,7 @@ static Expect expect_numeric(long ltype, const Value &v) {
     }
     return e;
   }
-  if (v.mode == MTyped && v.type) {  // colour, point, pointer, vector .. for a scalar field
+  if (typed(v) && v.type) {  // colour, point, pointer, vector .. for a scalar field
     e.known = true;
     e.val = "!value of a foreign type";
     e.why = "value type has no meaning for the property";
@@ -498,19 +505,28 @@ static std::string cur_component(const std::string &ptval, int idx) {  // "pt:<x
   return idx == 0 ? ptval.substr(3, comma - 3) : ptval.substr(comma + 1);
 }
 
+static Expect expectation_(int kind, FK fk, long ltype, const Value &v, const std::string &oldval);
 static Expect expectation(int kind, FK fk, long ltype, const Value &v, const std::string &oldval) {
+  Expect e = expectation_(kind, fk, ltype, v, oldval);
+  // mpt_object_set_value converts between types on its own (char -> one character string, ...):
+  // only number -> number has one meaning there
+  if (v.mode == MValue && e.known && e.val[0] == '!' && !(is_numeric_typed(v) && e.why == "the number given")) e.known = false;
+  return e;
+}
+static Expect expectation_(int kind, FK fk, long ltype, const Value &v, const std::string &oldval) {
   Expect e;
   if (v.mode == MNoValue || (v.mode == MTyped && !v.type)) return e;  // unknown: state independence only
+  if (typed(v) && v.type == 's' && v.null_string && fk != FStr) return e;  // NULL string: a source without value
   switch (fk) {
     case FStr:
-      if (is_text(v) || (v.mode == MTyped && v.type == kVecChar)) { e.known = true; e.val = "s:" + v.text; e.why = "the text given"; }
-      else if (v.mode == MTyped && v.type == 's') { e.known = true; e.val = "s:"; e.why = "NULL string"; }
+      if (is_text(v) || (typed(v) && v.type == kVecChar)) { e.known = true; e.val = "s:" + v.text; e.why = "the text given"; }
+      else if (typed(v) && v.type == 's') { e.known = true; e.val = "s:"; e.why = "NULL string"; }
       else { e.known = true; e.val = "!not a string"; e.why = "value is no text"; }
       return e;
     case FDouble: case FFloat: case FI16: case FU8: case FU32: case FLattr:
       return expect_numeric(ltype, v);
     case FGrid:
-      if (v.mode == MTyped && v.sem == SChar) { e.known = true; e.val = num_as(ltype, v); e.why = "the byte given"; return e; }
+      if (typed(v) && v.sem == SChar) { e.known = true; e.val = num_as(ltype, v); e.why = "the byte given"; return e; }
       return expect_numeric(ltype, v);
     case FTextX: case FTextY: {
       Expect n = expect_numeric('f', v);
@@ -522,18 +538,18 @@ static Expect expectation(int kind, FK fk, long ltype, const Value &v, const std
       return e;
     }
     case FChar:
-      if (v.mode == MTyped && v.type == 'c') { e.known = true; e.val = num_as('c', v); e.why = "the character given"; }
+      if (typed(v) && v.type == 'c') { e.known = true; e.val = num_as('c', v); e.why = "the character given"; }
       else if (is_text(v) && v.sem == SChar && v.clean) { e.known = true; e.val = num_as('c', v); e.why = "the single character of the text"; }
-      else if (v.mode == MTyped && !is_text(v) && v.sem != SInt && v.sem != SChar) { e.known = true; e.val = "!value of a foreign type"; e.why = "value type has no meaning for the property"; }
+      else if (typed(v) && !is_text(v) && v.sem != SInt && v.sem != SChar) { e.known = true; e.val = "!value of a foreign type"; e.why = "value type has no meaning for the property"; }
       return e;
     case FColor:
-      if (v.mode == MTyped && v.type == g_color_id) { e.known = true; e.val = ren_col(v.bytes.data()); e.why = "the colour given"; }
+      if (typed(v) && v.type == g_color_id) { e.known = true; e.val = ren_col(v.bytes.data()); e.why = "the colour given"; }
       else if (is_text(v)) {
         if (v.sem == SColor && v.clean) { uint8_t argb[4] = {v.rgba[3], v.rgba[0], v.rgba[1], v.rgba[2]}; e.known = true; e.val = ren_col(argb); e.why = "the colour the text names"; }
-      } else if (v.mode == MTyped && v.type != 's') { e.known = true; e.val = "!not a colour"; e.why = "value is no colour"; }
+      } else if (typed(v) && v.type != 's') { e.known = true; e.val = "!not a colour"; e.why = "value is no colour"; }
       return e;
     case FPoint01: case FPointScale:
-      if (v.mode == MTyped && v.type == g_fpoint_id) { e.known = true; e.val = ren_pt(v.pt[0], v.pt[1]); e.why = "the point given"; }
+      if (typed(v) && v.type == g_fpoint_id) { e.known = true; e.val = ren_pt(v.pt[0], v.pt[1]); e.why = "the point given"; }
       else if (is_text(v) && v.sem == SPoint && v.clean) {
         bool ok0, ok1;
         std::string x = text_as_float('f', v.ptext[0], ok0), y = text_as_float('f', v.ptext[v.npoint > 1 ? 1 : 0], ok1);
@@ -541,7 +557,7 @@ static Expect expectation(int kind, FK fk, long ltype, const Value &v, const std
           e.known = true; e.why = "the coordinates the text denotes";
           e.val = (x[0] == '!' || y[0] == '!') ? "!coordinate beyond float" : "pt:" + x + "," + y;
         }
-      } else if (v.mode == MTyped && v.type != 's') { e.known = true; e.val = "!not a point"; e.why = "value is no point"; }
+      } else if (typed(v) && v.type != 's') { e.known = true; e.val = "!not a point"; e.why = "value is no point"; }
       return e;
     case FIntv:
       if (is_text(v) && v.sem == SLog) { e.known = true; e.val = "log"; e.why = "keyword log"; return e; }
@@ -571,6 +587,9 @@ static Expect expectation(int kind, FK fk, long ltype, const Value &v, const std
 // value generation
 static std::string gen_string(Ctx &c, size_t maxlen) {
   size_t len = c.near({0, 1, 2, 7, 8, 15, 16, 17, 31, 32, 255, 256, 1023, 1024, 4095, 4096, 5000}, maxlen);
+  if (len >= 4095) c.label("string:len>=4095");
+  else if (len >= 255) c.label("string:len>=255");
+  else if (!len) c.label("string:empty");
   static const char alpha[] = "abcXYZ019 _-.;=#{}\t\xc3\xb6";
   unsigned seed = c.u8(), step = 1 + c.pick(7);
   std::string s(len, 'a');
@@ -794,7 +813,13 @@ static Value text_string(Ctx &c) {
 }
 static Value no_value() { Value v; v.mode = MNoValue; return v; }
 
+static Value gen_value_(Ctx &c, FK fk);
 static Value gen_value(Ctx &c, FK fk) {
+  Value v = gen_value_(c, fk);
+  if (v.mode == MTyped && v.type && c.chance(56)) v.mode = MValue;
+  return v;
+}
+static Value gen_value_(Ctx &c, FK fk) {
   // 0: fitting typed, 1: fitting text, 2: other numeric typed, 3: foreign typed, 4: garbage text, 5: no value
   size_t cls = c.weighted({8, 8, 2, 2, 2, 1});
   if (cls == 3) return typed_foreign(c);
@@ -838,6 +863,14 @@ static int apply(Obj *o, const char *name, const Value &v) {
   }
   TypedConv tc; tc.type = v.type; tc.data = v.bytes;
   std::unique_ptr<char[]> own;
+  struct Fin {  // MValue: the same bytes as a struct value handed to mpt_object_set_value
+    static int value(Obj *o, const char *name, const Value &v, const std::vector<uint8_t> &data) {
+      CObj<mpt::value> val;
+      val->_type = (mpt::type_t)v.type;
+      val->_addr = data.data();
+      return mpt::mpt_object_set_value(o->object(), name, val);
+    }
+  };
   if (v.type == 's') {
     const char *p = 0;
     if (!v.null_string) { own.reset(new char[v.text.size() + 1]); memcpy(own.get(), v.text.c_str(), v.text.size() + 1); p = own.get(); }
@@ -847,6 +880,7 @@ static int apply(Obj *o, const char *name, const Value &v) {
     struct iovec vec = {own.get(), v.text.size() + (v.vec_with_nul ? 1 : 0)};
     put(tc.data, vec);
   }
+  if (v.mode == MValue) return Fin::value(o, name, v, tc.data);
   return o->set(name, tc.iface());
 }
 
@@ -899,6 +933,21 @@ static void check_named_get(Ctx &c, int kind, Obj *o, const Snapshot &s) {
   }
 }
 
+// text also answers to "x" and "y": the coordinates of the listed property "pos"
+static void check_text_xy(Ctx &c, int kind, Obj *o, const Snapshot &s) {
+  int pi = find_prop(s, "pos");
+  if (kind != KText || pi < 0) return;
+  for (int i = 0; i < 2; i++) {
+    CObj<mpt::property> pr;
+    pr->name = i ? "y" : "x";
+    int r = o->get(pr);
+    VP_CHECK(c, r >= 0, "get-by-name-fails", "text: reading \"%s\" returns %d", pr->name, r);
+    VP_CHECK(c, (long)pr->val._type == 'f' && pr->val._addr, "get-bad-type", "text: \"%s\" has type %ld", i ? "y" : "x", (long)pr->val._type);
+    float f; memcpy(&f, pr->val._addr, 4);
+    VP_CHECK(c, ren_f(f) == cur_component(s[pi].val, i), "get-by-name-value", "text: \"%s\" reads %s, pos is %s", i ? "y" : "x", ren_f(f).c_str(), s[pi].val.c_str());
+  }
+}
+
 // colour printed with operator<< and parsed again is the same colour
 static void check_color_print(Ctx &c, int kind, const char *name, const mpt::color &col) {
   std::ostringstream os;
@@ -912,7 +961,7 @@ static void check_color_print(Ctx &c, int kind, const char *name, const mpt::col
            ren_col((const uint8_t *)&col).c_str(), printable(txt).c_str(), ren_col((const uint8_t *)back.get()).c_str());
 }
 
-static void run_history(Ctx &c, int flavour, int kind, bool enumerated) {
+static void run_history(Ctx &c, int flavour, int kind) {
   g_color_id = mpt::mpt_color_typeid();
   g_fpoint_id = mpt::mpt_fpoint_typeid();
   g_lattr_id = mpt::mpt_lattr_typeid();
@@ -920,7 +969,7 @@ static void run_history(Ctx &c, int flavour, int kind, bool enumerated) {
 
   World_ w;
   w.flavour = flavour; w.kind = kind;
-  size_t nobj = enumerated ? 2 : 1 + c.weighted({3, 4, 2});
+  size_t nobj = 1 + c.weighted({3, 4, 2});
   for (size_t i = 0; i < nobj; i++) w.objs.push_back(make_obj(flavour, kind));
   c.logf("flavour=%s kind=%s objects=%zu", flavour ? "c++ wrapper" : "C struct", kKind[kind], nobj);
   c.label(flavour ? "flavour:c++" : "flavour:c");
@@ -934,7 +983,7 @@ static void run_history(Ctx &c, int flavour, int kind, bool enumerated) {
   for (size_t i = 1; i < nobj; i++) { std::string d = diff(fresh, snap[i]); VP_CHECK(c, d.empty(), "fresh-objects-differ", "two freshly initialised %s objects differ: %s", kKind[kind], d.c_str()); }
 
   const KindInfo &ki = kInfo[kind];
-  unsigned steps = 0, accepted_sets = 0, changed = 0;
+  unsigned steps = 0, changed = 0;
   while (steps < 24 && c.more()) {
     ++steps;
     size_t t = nobj > 1 ? c.weighted({5, 2, 1}) % nobj : 0;
@@ -988,7 +1037,16 @@ static void run_history(Ctx &c, int flavour, int kind, bool enumerated) {
       bool null_name = c.flip();
       what = "copy " + std::string(kKind[kind]) + "#" + std::to_string(t) + " <- #" + std::to_string(src) + (null_name ? " (name NULL" : " (name \"\"");
       Obj *so = w.objs[src];
-      if (flavour == 1 && c.flip()) {
+      if (flavour == 1 && c.chance(64)) {
+        what = "clone " + std::string(kKind[kind]) + "#" + std::to_string(src) + " into slot #" + std::to_string(t);
+        c.logf("step %u: %s", steps, what.c_str());
+        Obj *n = so->clone();
+        VP_CHECK(c, n, "clone-null", "%s: clone() returns NULL", what.c_str());
+        o->destroy();
+        w.objs[t] = o = n;
+        ret = 0;
+        c.label("copy:clone");
+      } else if (flavour == 1 && c.flip()) {
         what += ", source is the wrapper itself)";
         c.logf("step %u: %s", steps, what.c_str());
         ret = o->set(null_name ? 0 : "", so->as_source());
@@ -1052,7 +1110,6 @@ static void run_history(Ctx &c, int flavour, int kind, bool enumerated) {
         VP_CHECK(c, d.empty(), "unknown-name-changed", "%s (returns %d): a name the setter source does not know changed the object: %s", what.c_str(), ret, d.c_str());
         c.label("set:unknown-name-accepted");
       } else {
-        ++accepted_sets;
         std::string d = diff(snap[t], after[t], target_prop);
         VP_CHECK(c, d.empty(), "set-changed-other", "%s accepted (%d) changed another property: %s", what.c_str(), ret, d.c_str());
         const std::string &got = after[t][target_prop].val;
@@ -1069,7 +1126,9 @@ static void run_history(Ctx &c, int flavour, int kind, bool enumerated) {
           Snapshot fs = snapshot(c, kind, f);
           c.logf("    on a fresh object: returns %d, reads %s", r2, printable(fs[target_prop].val, 80).c_str());
           VP_CHECK(c, r2 >= 0, "state-dependent", "%s accepted (%d) on the object but refused (%d) on a fresh object", what.c_str(), ret, r2);
-          VP_CHECK(c, fs[target_prop].val == got, "state-dependent", "%s accepted (%d): %s reads %s, the same set on a fresh object gives %s (was %s before)", what.c_str(), ret,
+          std::string fgot = fs[target_prop].val, hgot = got;
+          if (fk == FTextX || fk == FTextY) { fgot = cur_component(fgot, fk == FTextY); hgot = cur_component(hgot, fk == FTextY); }  // one coordinate addressed
+          VP_CHECK(c, fgot == hgot, "state-dependent", "%s accepted (%d): %s reads %s, the same set on a fresh object gives %s (was %s before)", what.c_str(), ret,
                    fresh[target_prop].name.c_str(), printable(got, 80).c_str(), printable(fs[target_prop].val, 80).c_str(), printable(snap[t][target_prop].val, 80).c_str());
           c.label("set:accepted-unknown");
         }
@@ -1080,27 +1139,23 @@ static void run_history(Ctx &c, int flavour, int kind, bool enumerated) {
           if (o->get(pr) >= 0 && (long)pr->val._type == g_color_id && pr->val._addr) { check_color_print(c, kind, pr->name, *(const mpt::color *)pr->val._addr); c.label("color:text-print-parse"); }
         }
         char lb[56]; snprintf(lb, sizeof lb, "ok:%s.%s", kKind[kind], fresh[target_prop].name.c_str()); c.label(lb);
-        c.label(val.mode == MTyped ? "set:accepted-typed" : "set:accepted-text");
+        c.label(val.mode == MTyped ? "set:accepted-typed" : val.mode == MValue ? "set:accepted-value" : "set:accepted-text");
       }
     }
     snap = after;
   }
   check_named_get(c, kind, w.objs[0], snap[0]);
-  if (changed >= 2 || (enumerated && accepted_sets)) c.nontrivial();
+  check_text_xy(c, kind, w.objs[0], snap[0]);
+  if (changed >= 2) c.nontrivial();
   c.count("steps", steps);
   // ~World_ finalises every object: double free / leak of strings shows here (ASan/LSan)
 }
 
 static void run(Ctx &c) {
   uint8_t sel = c.u8();
-  if (sel == 0xff) {
-    int flavour = (int)c.pick(2), kind = (int)c.pick(NKind);
-    run_history(c, flavour, kind, true);
-    return;
-  }
   int kind = sel % NKind;
   int flavour = (sel / NKind) % 4 == 3 ? 1 : 0;  // 1 of 4 cases through the C++ wrappers
-  run_history(c, flavour, kind, false);
+  run_history(c, flavour, kind);
 }
 
 static Target t = {
